@@ -191,6 +191,33 @@ def check_bifurcation(case):
     return {"nontrivial": True, "classes": [case["model"], "amplitude<1e-3" if amp < 1e-3 else "amplitude>=1e-3"], "target": {"amplitude": amp}}
 
 
+def check_resonance(case):
+    """Permeate-pressure mode: at p_c = (P1 pf1 + P2 pf2)/(P1 + P2) (permeance-weighted mean of the feed partial pressures) the
+    iteration map is an involution - every start lies on a neutral 2-cycle - and just below p_c convergence is arbitrarily slow.
+    The calculation must still return or raise within the cap at and around p_c (constructed class, found by a seeded change)."""
+    from pyvaporation.mixtures import get_partial_pressures
+
+    pv, mix = make_pv(case)
+    pf = get_partial_pressures(case["T"], mix, build.composition(case["x"], case["basis"]), case["model"])
+    pc = (case["p1"] * float(pf[0]) + case["p2"] * float(pf[1])) / (case["p1"] + case["p2"])
+    if not (pc == pc and 0 < pc < 1e6):
+        raise Discard("critical pressure not representable")
+    n = 0
+    for eps in case["eps"]:
+        c = dict(case, perm={"mode": "pressure", "T": None, "p": pc * (1.0 - eps)})
+        out, tr = run_capped(lambda: pv.calculate_partial_fluxes(**solver_kwargs(c)), pv,
+                             "calculate_partial_fluxes at permeate pressure %r = critical pressure x (1 - %r)" % (c["perm"]["p"], eps), c)
+        n = max(n, tr.count)
+    return {"nontrivial": n >= 100, "classes": [case["model"], "max-evals>=1e3" if n >= 1000 else "max-evals<1e3"], "target": {"evaluations": float(n)}}
+
+
+@st.composite
+def resonance_strategy(draw):
+    c = draw(gen.solver_case(modes=("pressure",), fractions=gen.mid_fraction()))
+    c["eps"] = [0.0] + [draw(gen.signed_log(1e-7, 1e-2)) for _ in range(3)]
+    return c
+
+
 def bifurcation_strategy(tier):
     return gen.solver_case(models=("UNIQUAC", "NRTL", "UNIQUAC"), modes=("temperature",), builtin_share=0.7)
 
@@ -218,6 +245,8 @@ PARTS = [
          floor={"quick": 60, "thorough": 1500}, shrink={"quick": False, "thorough": True}),
     Part("period-doubling-boundary", bifurcation_strategy, check_bifurcation, {"quick": 1200, "thorough": 30000},
          floor={"quick": 6, "thorough": 150}, shrink={"quick": False, "thorough": False}, max_discard=0.995),
+    Part("pressure-resonance", lambda tier: resonance_strategy(), check_resonance, {"quick": 640, "thorough": 20000},
+         floor={"quick": 60, "thorough": 2000}, shrink={"quick": False, "thorough": False}),
     Part("non-ideal-models", lambda tier: __import__("pvverif.procs", fromlist=["x"]).process_case(
         kinds=("nonideal-iso", "nonideal-noniso"), max_steps=6, modes=("temperature", "pressure", "temperature")), check_nonideal,
          {"quick": 160, "thorough": 4000}, floor={"quick": 15, "thorough": 400}, shrink={"quick": False, "thorough": True}),
